@@ -81,16 +81,36 @@ func loadZone(name string) *zoneInfo {
 		return nil
 	}
 	z := &zoneInfo{name: name, loc: loc}
-	t := time.Date(1960, 1, 1, 0, 0, 0, 0, time.UTC).In(loc)
-	_, z.base = t.Zone()
-	for i := 0; i < 2000; i++ {
-		_, end := t.ZoneBounds()
-		if end.IsZero() || end.Year() > 2263 {
-			break
+	offAt := func(u int64) int {
+		_, o := time.Unix(u, 0).In(loc).Zone()
+		return o
+	}
+	start := time.Date(1960, 1, 1, 0, 0, 0, 0, time.UTC).Unix()
+	stop := time.Date(2263, 1, 1, 0, 0, 0, 0, time.UTC).Unix()
+	z.base = offAt(start)
+	// Transitions are located by probing the offset every six hours and bisecting to the second. (Time.ZoneBounds cannot be
+	// used throughout: from the hand-over of the tabulated transitions to the TZ rule on — 2037/2040 — it returns stale bounds.)
+	const step = 6 * 3600
+	prev := z.base
+	for u := start; u < stop; u += step {
+		o := offAt(u + step)
+		if o == prev {
+			continue
 		}
-		_, off := end.Zone()
-		z.trans = append(z.trans, [2]int64{end.Unix(), int64(off)})
-		t = end
+		lo, hi := u, u+step // offAt(lo) == prev, offAt(hi) != prev
+		for hi-lo > 1 {
+			mid := lo + (hi-lo)/2
+			if offAt(mid) == prev {
+				lo = mid
+			} else {
+				hi = mid
+			}
+		}
+		z.trans = append(z.trans, [2]int64{hi, int64(offAt(hi))})
+		prev = offAt(hi)
+		if prev != o { // a second change inside the same six hours: go on from the first one
+			u = hi - step
+		}
 	}
 	return z
 }
@@ -104,22 +124,21 @@ func (z *zoneInfo) line() string {
 	return b.String()
 }
 
-// repeated reports whether the wall-clock reading of instant u occurs at another instant too.
+// repeated reports whether the wall-clock reading of instant u occurs at another instant too: for every other
+// offset o2 in force within two days of u, the instant u + o1 - o2 would show the same reading if o2 is in force there.
 func repeated(loc *time.Location, u int64) bool {
 	_, o1 := time.Unix(u, 0).In(loc).Zone()
-	for d := int64(-4 * 3600); d <= 4*3600; d += 900 {
-		if d == 0 {
+	offs := map[int]bool{}
+	for d := int64(-2 * 86400); d <= 2*86400; d += 900 {
+		_, o := time.Unix(u+d, 0).In(loc).Zone()
+		offs[o] = true
+	}
+	for o2 := range offs {
+		if o2 == o1 {
 			continue
 		}
-		_, o2 := time.Unix(u+d, 0).In(loc).Zone()
-		if u+int64(o1) == u+d+int64(o2) {
-			return true
-		}
-	}
-	// whole-day shifts (date line changes)
-	for _, d := range []int64{-86400, 86400} {
-		_, o2 := time.Unix(u+d, 0).In(loc).Zone()
-		if u+int64(o1) == u+d+int64(o2) {
+		v := u + int64(o1) - int64(o2)
+		if _, o := time.Unix(v, 0).In(loc).Zone(); o == o2 {
 			return true
 		}
 	}
